@@ -182,6 +182,32 @@ def crossSingletonStaticRun : Option Val → List Batch → List Batch → List 
      | none => []) :: crossSingletonStaticRun st' as ss
   | _, _, _ => []
 
+/-- `reduce_no_replay::<'static>` (top-level bounded input): like `fold_no_replay`, for an `Option` accumulator -/
+def reduceNoReplayRun (f : Val → Val → Val) : Bool → Option Val → List Batch → List Batch
+  | _, _, [] => []
+  | first, s, b :: bs =>
+    let s' := b.foldl (reduceStep f) s
+    (if first || !b.isEmpty then s'.toList else []) :: reduceNoReplayRun f false s' bs
+
+/-- operators with one streaming side (`'tick`) and one top-level *bounded* side whose state is `'static`
+    (`join_multiset_half::<'static,'tick>`, `anti_join::<'tick,'static>`, `difference::<'tick,'static>`):
+    each tick the bounded side's new items are added to the persistent state first, then the streaming
+    side's batch is processed against the state -/
+def staticSideRun (g : List Val → List Val → List Val) : List Val → List Batch → List Batch → List Batch
+  | st, a :: as, b :: bs =>
+    let st' := st ++ b
+    g st' a :: staticSideRun g st' as bs
+  | _, _, _ => []
+
+def memB (l : List Val) (x : Val) : Bool := l.any (fun y => decide (y = x))
+
+/-- `join_multiset_half`: every probe item, in order, with its matches in build order -/
+def gJoinHalf (build probe : List Val) : List Val := joinL probe build
+/-- `anti_join`: probe items whose key is not among the (key) items of the static side -/
+def gAntiJoin (neg pos : List Val) : List Val := pos.filter (fun x => !memB neg x.key)
+/-- `difference`: items not among the static side's items -/
+def gDifference (neg pos : List Val) : List Val := pos.filter (fun x => !memB neg x)
+
 /-! ## Programs -/
 
 /-- Top-level programs over the safe API.  Function arguments are the (pure) closures the user
@@ -205,6 +231,10 @@ inductive Term where
   | kfold (init : Val) (f : Val → Val → Val) (t : Term)                 -- FoldKeyed -> `fold_keyed::<'static>`
   | foldB (init : Val) (f : Val → Val → Val) (t : Term)                 -- Fold of a top-level bounded stream -> `fold_no_replay::<'static>`
   | crossSingleton (t s : Term)                       -- CrossSingleton, `s` top-level bounded -> `cross_singleton::<'static>`
+  | reduceB (f : Val → Val → Val) (t : Term)          -- Reduce of a top-level bounded stream -> `reduce_no_replay::<'static>`
+  | joinHalfS (t b : Term)                            -- JoinHalf, `b` top-level bounded -> `join_multiset_half::<'static,'tick>`
+  | antiJoinS (t b : Term)                            -- AntiJoin, `b` top-level bounded -> `anti_join::<'tick,'static>`
+  | differenceS (t b : Term)                          -- Difference (`filter_not_in`) -> `difference::<'tick,'static>`
   | smap (f : Val → Val) (t : Term)                   -- Singleton/Optional::map -> `map`
   | sfilter (p : Val → Bool) (t : Term)               -- Singleton/Optional::filter -> `filter`
 
@@ -287,6 +317,15 @@ def Term.kind : Term → Option Kind
     | some sT, some bsing => some sT
     | some sN, some bsing => some sN
     | _, _ => none
+  | .reduceB _ t =>
+    match t.kind with
+    | some bT => some bsing
+    | _ => none
+  | .joinHalfS t b | .antiJoinS t b | .differenceS t b =>
+    match t.kind, b.kind with
+    | some sT, some bT => some sT
+    | some sN, some bT => some sN
+    | _, _ => none
   | .smap _ t =>
     match t.kind with
     | some sing => some sing
@@ -319,6 +358,10 @@ def run : Term → List TickIn → List Batch
   | .kfold init f t, ins => accStatic (kfoldStep init f) entries [] (run t ins)
   | .foldB init f t, ins => foldNoReplayRun f true init (run t ins)
   | .crossSingleton t s, ins => crossSingletonStaticRun none (run t ins) (run s ins)
+  | .reduceB f t, ins => reduceNoReplayRun f true none (run t ins)
+  | .joinHalfS t b, ins => staticSideRun gJoinHalf [] (run t ins) (run b ins)
+  | .antiJoinS t b, ins => staticSideRun gAntiJoin [] (run t ins) (run b ins)
+  | .differenceS t b, ins => staticSideRun gDifference [] (run t ins) (run b ins)
   | .smap f t, ins => (run t ins).map (List.map f)
   | .sfilter p t, ins => (run t ins).map (List.filter p)
 
@@ -345,6 +388,10 @@ def spec : Term → (Nat → List Val) → List Val
     match (spec s I).head? with
     | some v => (spec t I).map (fun x => Val.pair x v)
     | none => []
+  | .reduceB f t, I => ((spec t I).foldl (reduceStep f) none).toList
+  | .joinHalfS t b, I => gJoinHalf (spec b I) (spec t I)
+  | .antiJoinS t b, I => gAntiJoin (spec b I) (spec t I)
+  | .differenceS t b, I => gDifference (spec b I) (spec t I)
   | .smap f t, I => (spec t I).map f
   | .sfilter p t, I => (spec t I).filter p
 
@@ -352,8 +399,9 @@ def spec : Term → (Nat → List Val) → List Val
 def Term.WF : Term → Prop
   | .input _ | .const _ => True
   | .map _ t | .filter _ t | .flatMap _ t | .filterMap _ t | .enumerate t | .scan _ _ t
-  | .unique t | .kscan _ _ t | .reduce _ t | .kfold _ _ t | .foldB _ _ t | .smap _ t | .sfilter _ t => t.WF
-  | .union a b | .chain a b | .join a b | .crossSingleton a b => a.WF ∧ b.WF
+  | .unique t | .kscan _ _ t | .reduce _ t | .kfold _ _ t | .foldB _ _ t | .reduceB _ t | .smap _ t | .sfilter _ t => t.WF
+  | .union a b | .chain a b | .join a b | .crossSingleton a b | .joinHalfS a b | .antiJoinS a b
+  | .differenceS a b => a.WF ∧ b.WF
   | .fold comm _ f t => t.WF ∧ (comm = true → ∀ a x y, f (f a x) y = f (f a y) x)
 
 end HvHydro
